@@ -758,4 +758,278 @@ theorem noCollision_of_wf {ups cores downs : List Seg}
     · have := flatMap_segTuples_idx ha; omega
     · have := flatMap_segTuples_idx ha; omega
 
+/-! joins through the destination vertex are long -/
+
+
+/-- number of interface entries of AS `x` in an interface list (what `filterLongPaths` counts) -/
+def cnt (x : Nat) (l : List Iface) : Nat := (l.map (·.ia)).count x
+
+theorem cnt_append (x : Nat) (a b : List Iface) : cnt x (a ++ b) = cnt x a + cnt x b := by
+  simp [cnt, List.count_append]
+
+theorem cnt_reverse (x : Nat) (a : List Iface) : cnt x a.reverse = cnt x a := by
+  simp [cnt, List.map_reverse, List.count_reverse]
+
+theorem cnt_pos_of_mem {x : Nat} {l : List Iface} {id : Nat} (h : (⟨x, id⟩ : Iface) ∈ l) :
+    1 ≤ cnt x l := by
+  unfold cnt
+  rw [List.one_le_count_iff]
+  exact List.mem_map.2 ⟨_, h, rfl⟩
+
+theorem isLong_of_cnt {x : Nat} {l : List Iface} (h : 3 ≤ cnt x l) : isLong l = true := by
+  unfold isLong
+  rw [List.any_eq_true]
+  have hm : x ∈ l.map (·.ia) := by
+    rw [← List.one_le_count_iff]; unfold cnt at h; omega
+  obtain ⟨i, hi, rfl⟩ := List.mem_map.1 hm
+  exact ⟨i, hi, by unfold cnt at h; simp; omega⟩
+
+/-- non-zero interface ids where a link exists: the last entry has an ingress, every other entry an
+egress, and a segment has at least two entries -/
+def IfWF (s : Seg) : Prop :=
+  2 ≤ s.ents.length ∧ (∀ t, s.ents.getLast? = some t → t.hf.inIf ≠ 0) ∧
+  ∀ (i : Nat) (ent : ASE), s.ents[i]? = some ent → i + 1 ≠ s.ents.length → ent.hf.egIf ≠ 0
+
+/-- interface count of an output segment whose edge uses no peer entry: head part + tail part -/
+theorem edgeOut_cnt {mtu : Nat} {e : Edge} {s : SegOut} {m : Nat} {h : ASE} {tl : List ASE}
+    (ho : edgeOut mtu e = .ok (s, m)) (hp : e.peer = 0) (hd : e.seg.ents.drop e.sc = h :: tl) (x : Nat) :
+    cnt x s.intfs = cnt x (if e.sc ≠ 0 then [] else nz h.ia h.hf.inIf) + cnt x (nz h.ia h.hf.egIf) +
+      cnt x (tl.flatMap fun t => nz t.ia t.hf.inIf ++ nz t.ia t.hf.egIf) := by
+  have h1 := edgeOut_intfs ho
+  unfold consIfaces at h1
+  simp only [hd, hp, headHop, Option.map_some, Option.some.injEq, and_true] at h1
+  have : cnt x s.intfs = cnt x (if e.kind = Kind.down then s.intfs else s.intfs.reverse) := by
+    split
+    · rfl
+    · rw [cnt_reverse]
+  rw [this, ← h1, cnt_append, cnt_append]
+
+theorem cnt_nz_self {ia id : Nat} (h : id ≠ 0) : cnt ia (nz ia id) = 1 := by
+  simp [cnt, nz, h]
+
+theorem cnt_tail_pos {tl : List ASE} {t : ASE} (ht : t ∈ tl) (h : t.hf.inIf ≠ 0) :
+    1 ≤ cnt t.ia (tl.flatMap fun t => nz t.ia t.hf.inIf ++ nz t.ia t.hf.egIf) := by
+  apply cnt_pos_of_mem (id := t.hf.inIf)
+  rw [List.mem_flatMap]
+  exact ⟨t, ht, by simp [nz, h]⟩
+
+theorem last_mem_drop {α : Type} {l : List α} {t : α} {n : Nat} (h : l.getLast? = some t)
+    (hn : n < l.length) : t ∈ l.drop n := by
+  apply List.mem_of_getLast?
+  rw [List.getLast?_drop]
+  have : ¬ l.length ≤ n := by omega
+  simp [this, h]
+
+/-- an edge without peer entry leaving/entering at entry `ent` (not the last one): the AS of `ent`
+is counted once (its egress), the last AS of the segment once (its ingress), separately -/
+theorem edgeOut_cnt_ends {mtu : Nat} {e : Edge} {s : SegOut} {m : Nat} {ent last : ASE}
+    (hw : IfWF e.seg) (ho : edgeOut mtu e = .ok (s, m)) (hp : e.peer = 0)
+    (hent : e.seg.ents[e.sc]? = some ent) (hne : e.sc + 1 ≠ e.seg.ents.length)
+    (hlast : e.seg.ents.getLast? = some last) (x : Nat) :
+    (if ent.ia = x then 1 else 0) + (if last.ia = x then 1 else 0) ≤ cnt x s.intfs := by
+  obtain ⟨tl, hd⟩ := drop_of_getElem? hent
+  rw [edgeOut_cnt ho hp hd x]
+  have hlt : e.sc + 1 < e.seg.ents.length := by
+    have : e.sc < e.seg.ents.length := by
+      rcases Nat.lt_or_ge e.sc e.seg.ents.length with h | h
+      · exact h
+      · rw [List.getElem?_eq_none h] at hent; cases hent
+    omega
+  have htl : last ∈ tl := by
+    have h1 := last_mem_drop hlast hlt
+    have : e.seg.ents.drop (e.sc + 1) = tl := by
+      rw [← List.drop_drop, hd]; rfl
+    rwa [this] at h1
+  have h1 : (if ent.ia = x then 1 else 0) ≤ cnt x (nz ent.ia ent.hf.egIf) := by
+    split
+    · next hx => subst hx; rw [cnt_nz_self (hw.2.2 _ _ hent hne)]; exact Nat.le_refl 1
+    · exact Nat.zero_le _
+  have h2 : (if last.ia = x then 1 else 0) ≤
+      cnt x (tl.flatMap fun t => nz t.ia t.hf.inIf ++ nz t.ia t.hf.egIf) := by
+    split
+    · next hx => subst hx; exact cnt_tail_pos htl (hw.2.1 _ hlast)
+    · exact Nat.zero_le _
+  omega
+
+
+theorem vPeering_ne_vIA {a b c d x : Nat} (hx : x ≠ 0) : vPeering a b c d ≠ vIA x := by
+  intro h
+  simp only [vPeering, vIA, Vertex.mk.injEq] at h
+  exact hx h.1.symm
+
+theorem lastIA_getLast {s : Seg} {l : Nat} (h : lastIA s = some l) :
+    ∃ t, s.ents.getLast? = some t ∧ t.ia = l := by
+  unfold lastIA at h
+  cases hg : s.ents.getLast? with
+  | none => simp [hg] at h
+  | some t => simp [hg] at h; exact ⟨t, rfl, h⟩
+
+theorem firstIA_head {s : Seg} {f : Nat} (h : firstIA s = some f) :
+    ∃ t, s.ents[0]? = some t ∧ t.ia = f := by
+  unfold firstIA at h
+  cases hs : s.ents with
+  | nil => simp [hs] at h
+  | cons t r => simp [hs] at h; exact ⟨t, by simp, h⟩
+
+/-- up segment left at the AS vertex of `x`: `x` has an interface entry in the segment's part -/
+theorem up_cnt {mtu : Nat} {u : Seg} {e : Edge} {s : SegOut} {m x : Nat} (hx : x ≠ 0)
+    (hw : IfWF u) (hex : IsUpExit u e (vIA x)) (ho : edgeOut mtu e = .ok (s, m)) :
+    1 ≤ cnt x s.intfs := by
+  obtain ⟨rfl, _, ent, hent, ⟨hp, hne, hv⟩ | ⟨k, p, _, _, hv⟩⟩ := hex
+  · have hne' : e.seg.ents ≠ [] := by
+      intro h; rw [h] at hent; simp at hent
+    obtain ⟨l, hl⟩ := lastIA_some_iff.2 hne'
+    obtain ⟨last, hlast, _⟩ := lastIA_getLast hl
+    have := edgeOut_cnt_ends hw ho hp hent hne hlast x
+    have hia : ent.ia = x := (vIA_inj hv).symm
+    simp only [hia, if_true] at this
+    omega
+  · exact absurd hv.symm (vPeering_ne_vIA hx)
+
+/-- down segment entered at the AS vertex of `x` and ending at `dst` -/
+theorem down_cnt {mtu : Nat} {d : Seg} {e : Edge} {s : SegOut} {m x dst : Nat} (hx : x ≠ 0)
+    (hw : IfWF d) (hl : lastIA d = some dst) (hex : IsDownEntry d (vIA x) e)
+    (ho : edgeOut mtu e = .ok (s, m)) (y : Nat) :
+    (if x = y then 1 else 0) + (if dst = y then 1 else 0) ≤ cnt y s.intfs := by
+  obtain ⟨last, hlast, hlia⟩ := lastIA_getLast hl
+  obtain ⟨rfl, _, ent, hent, ⟨hp, hne, hv⟩ | ⟨k, p, _, _, hv⟩⟩ := hex
+  · have := edgeOut_cnt_ends hw ho hp hent hne hlast y
+    have hia : ent.ia = x := (vIA_inj hv).symm
+    rw [hia, hlia] at this
+    exact this
+  · exact absurd hv.symm (vPeering_ne_vIA hx)
+
+/-- core segment from its last AS `l` to its first AS `f` -/
+theorem core_cnt {mtu : Nat} {cores : List Seg} {a b : Vertex} {e : Edge} {s : SegOut} {m : Nat}
+    (hw : ∀ c ∈ cores, IfWF c) (hc : CoreOf cores a e b) (ho : edgeOut mtu e = .ok (s, m)) (y : Nat) :
+    (if b = vIA y then 1 else 0) + (if a = vIA y then 1 else 0) ≤ cnt y s.intfs := by
+  obtain ⟨c, hcm, rfl, l, f, hl, hf, rfl, rfl⟩ := hc
+  obtain ⟨last, hlast, hlia⟩ := lastIA_getLast hl
+  obtain ⟨first, hfirst, hfia⟩ := firstIA_head hf
+  have hwc := hw c hcm
+  have hne : 0 + 1 ≠ c.ents.length := by have := hwc.1; omega
+  have := edgeOut_cnt_ends (e := ⟨c, .core, 0, 0⟩) hwc ho rfl hfirst hne hlast y
+  rw [hfia, hlia] at this
+  have e1 : (vIA f = vIA y) = (f = y) := propext ⟨vIA_inj, fun h => h ▸ rfl⟩
+  have e2 : (vIA l = vIA y) = (l = y) := propext ⟨vIA_inj, fun h => h ▸ rfl⟩
+  simp only [e1, e2]
+  exact this
+
+theorem pathOf_two {a b : Edge} {p : Path} (h : pathOf [a, b] = .ok p) :
+    ∃ s1 s2 m1 m2, edgeOut 65535 a = .ok (s1, m1) ∧ edgeOut m1 b = .ok (s2, m2) ∧
+      p.intfs = s1.intfs ++ s2.intfs := by
+  unfold pathOf at h
+  simp only [pathLoop] at h
+  cases h1 : edgeOut 65535 a with
+  | error x => simp [h1] at h
+  | ok r1 =>
+    obtain ⟨s1, m1⟩ := r1
+    cases h2 : edgeOut m1 b with
+    | error x => simp [h1, h2] at h
+    | ok r2 =>
+      obtain ⟨s2, m2⟩ := r2
+      simp [h1, h2] at h
+      exact ⟨s1, s2, m1, m2, rfl, h2, by rw [← h]⟩
+
+theorem pathOf_three {a b c : Edge} {p : Path} (h : pathOf [a, b, c] = .ok p) :
+    ∃ s1 s2 s3 m1 m2 m3, edgeOut 65535 a = .ok (s1, m1) ∧ edgeOut m1 b = .ok (s2, m2) ∧
+      edgeOut m2 c = .ok (s3, m3) ∧ p.intfs = s1.intfs ++ s2.intfs ++ s3.intfs := by
+  unfold pathOf at h
+  simp only [pathLoop] at h
+  cases h1 : edgeOut 65535 a with
+  | error x => simp [h1] at h
+  | ok r1 =>
+    obtain ⟨s1, m1⟩ := r1
+    cases h2 : edgeOut m1 b with
+    | error x => simp [h1, h2] at h
+    | ok r2 =>
+      obtain ⟨s2, m2⟩ := r2
+      cases h3 : edgeOut m2 c with
+      | error x => simp [h1, h2, h3] at h
+      | ok r3 =>
+        obtain ⟨s3, m3⟩ := r3
+        simp [h1, h2, h3] at h
+        exact ⟨s1, s2, s3, m1, m2, m3, rfl, h2, h3, by rw [← h]; simp⟩
+
+
+theorem firstIA_ne_zero {s : Seg} {f : Nat} (hw : SegWF s) (h : firstIA s = some f) : f ≠ 0 := by
+  obtain ⟨t, ht, rfl⟩ := firstIA_head h
+  exact (hw.2 t (List.mem_of_getElem? ht)).1
+
+/-- a join either avoids the destination vertex at its intermediate join points, or its path has at
+least three interface entries of the destination AS (it enters, leaves and re-enters it) -/
+theorem join_strict_or_long {ups cores downs : List Seg} {src dst : Nat} {es : List Edge} {p : Path}
+    (hdst : dst ≠ 0) (hw : ∀ s ∈ ups ++ cores ++ downs, SegWF s ∧ IfWF s)
+    (hj : IsJoin ups cores downs src dst es) (hp : pathOf es = .ok p) :
+    IsJoinStrict ups cores downs src dst es ∨ isLong p.intfs = true := by
+  have hwu : ∀ s ∈ ups, IfWF s := fun s hs => (hw s (by simp [hs])).2
+  have hwc : ∀ s ∈ cores, IfWF s := fun s hs => (hw s (by simp [hs])).2
+  have hwd : ∀ s ∈ downs, IfWF s := fun s hs => (hw s (by simp [hs])).2
+  rcases hj with h | h | h | ⟨e, c, v, rfl, hu, hc⟩ | ⟨e, d, v, rfl, hu, hd⟩ |
+    ⟨c, d, v, rfl, hc, hd⟩ | ⟨e, c, d, v, w, rfl, hu, hc, hd⟩
+  · exact .inl (.inl h)
+  · exact .inl (.inr (.inl h))
+  · exact .inl (.inr (.inr (.inl h)))
+  · by_cases hv : v = vIA dst
+    · subst hv
+      right
+      obtain ⟨s1, s2, m1, m2, h1, h2, hi⟩ := pathOf_two hp
+      obtain ⟨u, hum, _, hex⟩ := hu
+      have c1 := up_cnt hdst (hwu u hum) hex h1
+      have c2 := core_cnt hwc hc h2 dst
+      simp only [if_true] at c2
+      apply isLong_of_cnt (x := dst)
+      rw [hi, cnt_append]; omega
+    · exact .inl (.inr (.inr (.inr (.inl ⟨e, c, v, rfl, hv, hu, hc⟩))))
+  · by_cases hv : v = vIA dst
+    · subst hv
+      right
+      obtain ⟨s1, s2, m1, m2, h1, h2, hi⟩ := pathOf_two hp
+      obtain ⟨u, hum, _, hex⟩ := hu
+      obtain ⟨d', hdm, hl, hex2⟩ := hd
+      have c1 := up_cnt hdst (hwu u hum) hex h1
+      have c2 := down_cnt hdst (hwd d' hdm) hl hex2 h2 dst
+      simp only [if_true] at c2
+      apply isLong_of_cnt (x := dst)
+      rw [hi, cnt_append]; omega
+    · exact .inl (.inr (.inr (.inr (.inr (.inl ⟨e, d, v, rfl, hv, hu, hd⟩)))))
+  · by_cases hv : v = vIA dst
+    · subst hv
+      right
+      obtain ⟨s1, s2, m1, m2, h1, h2, hi⟩ := pathOf_two hp
+      obtain ⟨d', hdm, hl, hex2⟩ := hd
+      have c1 := core_cnt hwc hc h1 dst
+      have c2 := down_cnt hdst (hwd d' hdm) hl hex2 h2 dst
+      simp only [if_true] at c1 c2
+      apply isLong_of_cnt (x := dst)
+      rw [hi, cnt_append]; omega
+    · exact .inl (.inr (.inr (.inr (.inr (.inr (.inl ⟨c, d, v, rfl, hv, hc, hd⟩))))))
+  · by_cases hv : v = vIA dst
+    · subst hv
+      right
+      obtain ⟨s1, s2, s3, m1, m2, m3, h1, h2, h3, hi⟩ := pathOf_three hp
+      obtain ⟨u, hum, _, hex⟩ := hu
+      obtain ⟨d', hdm, hl, hex2⟩ := hd
+      have c1 := up_cnt hdst (hwu u hum) hex h1
+      have c2 := core_cnt hwc hc h2 dst
+      simp only [if_true] at c2
+      -- the down segment is entered at the first AS `f` of the core segment
+      obtain ⟨c', hcm, _, l, f, _, hf, _, rfl⟩ := hc
+      have hf0 : f ≠ 0 := firstIA_ne_zero (hw c' (by simp [hcm])).1 hf
+      have c3 := down_cnt hf0 (hwd d' hdm) hl hex2 h3 dst
+      simp only [if_true] at c3
+      apply isLong_of_cnt (x := dst)
+      rw [hi, cnt_append, cnt_append]; omega
+    · by_cases hw' : w = vIA dst
+      · subst hw'
+        right
+        obtain ⟨s1, s2, s3, m1, m2, m3, h1, h2, h3, hi⟩ := pathOf_three hp
+        obtain ⟨d', hdm, hl, hex2⟩ := hd
+        have c2 := core_cnt hwc hc h2 dst
+        have c3 := down_cnt hdst (hwd d' hdm) hl hex2 h3 dst
+        simp only [if_true] at c2 c3
+        apply isLong_of_cnt (x := dst)
+        rw [hi, cnt_append, cnt_append]; omega
+      · exact .inl (.inr (.inr (.inr (.inr (.inr (.inr ⟨e, c, d, v, w, rfl, hv, hw', hu, hc, hd⟩))))))
+
 end Scion.Combinator
